@@ -275,6 +275,8 @@ class Ctx:
         tier = tier or self.o['max_tier']
         t0 = time.time()
         fs = (list(self.pc) if use_pc else []) + (self._relevant_facts(list(extra) + (list(self.pc) if use_pc else [])) if use_facts else []) + list(extra)
+        if getattr(self, 'elim', None):
+            fs = [z3.substitute(f, *self.elim) for f in fs]
         res = 'sat'
         last_tier = 0
         nlem_prev = -1
@@ -321,6 +323,17 @@ class Ctx:
         self.tq += time.time() - t0
         self.last_tier = last_tier
         return res
+
+    def eliminate(self, var, expr, label):
+        """prove var == expr on this path, then replace var by expr in every later query (solve-eqs by hand: nlsat does not find such substitutions)"""
+        if self.mode != 'sym':
+            return True
+        if not self.prove_eq(var, expr, label):
+            return False
+        if not hasattr(self, 'elim'):
+            self.elim = []
+        self.elim.append((tz(var), tz(expr)))
+        return True
 
     def unfold(self, fs):
         """substitute the definitions of the size-triggered abstraction symbols (repeatedly: definitions may nest)"""
